@@ -1,4 +1,5 @@
 import PromProofs.HistChunk
+import PromProofs.HistSpansEnc
 /-
   `AppendHistogram`/`AppendFloatHistogram` (all four outcomes) preserve the chunk invariant `CInv`
   (C11 append_roundtrip, C12 hint soundness).
@@ -249,7 +250,8 @@ theorem appendHist_counter_live (c : Chunk) (l : List (Int × Hist)) (inv : CInv
     (t : Int) (h : Hist) (hns : h.stale = false) (hwf : WF h) (hfl : h.float = c.float) (hg : h.hint ≠ .gauge)
     (pf nf pb nb : List Insert) (hok : c.appendable h = .ok (.ok pf nf pb nb)) (r : AppRes)
     (hr : appendHist none c t h = .ok r) :
-    r.out ≠ .newChunk ∧ CInv r.chunk ((t, h) :: l) ∧ r.h.sem = h.sem := by
+    r.out ≠ .newChunk ∧ CInv r.chunk ((t, h) :: l) ∧ r.h.sem = h.sem ∧
+      SpanSrc c.pSpans h.pSpans r.chunk.pSpans ∧ SpanSrc c.nSpans h.nSpans r.chunk.nSpans := by
   obtain ⟨hng, hep, hen⟩ := appendable_ok_facts c h pf nf pb nb hns hok
   obtain ⟨pp, ppi, _, _⟩ := expandCounter_plan _ _ _ _ _ _ _ hep
   obtain ⟨pn, pni, _, _⟩ := expandCounter_plan _ _ _ _ _ _ _ hen
@@ -280,19 +282,27 @@ theorem appendHist_counter_live (c : Chunk) (l : List (Int × Hist)) (inv : CInv
       idxs S1 = mergeU (idxs c.pSpans) (idxs h.pSpans) → idxs S2 = mergeU (idxs c.nSpans) (idxs h.nSpans) →
       applyIns h.float h.pB (countSpans S1) pb = .ok pB1 → applyIns h.float h.nB (countSpans S2) nb = .ok nB1 →
       h1 = { h with pSpans := S1, nSpans := S2, pB := pB1, nB := nB1 } → appendTail c t pf nf h1 = .ok r →
-      r.out ≠ .newChunk ∧ CInv r.chunk ((t, h) :: th0 :: l0) ∧ r.h.sem = h.sem := by
-    intro S1 S2 pB1 nB1 h1 hS1 hS2 hp1 hn1 hh1 htail
+      SpanSrc c.pSpans h.pSpans S1 → SpanSrc c.nSpans h.nSpans S2 →
+      r.out ≠ .newChunk ∧ CInv r.chunk ((t, h) :: th0 :: l0) ∧ r.h.sem = h.sem ∧
+        SpanSrc c.pSpans h.pSpans r.chunk.pSpans ∧ SpanSrc c.nSpans h.nSpans r.chunk.nSpans := by
+    intro S1 S2 pB1 nB1 h1 hS1 hS2 hp1 hn1 hh1 htail hsrc1 hsrc2
     obtain ⟨rh, rout, rch⟩ := appendTail_ok c t h1 pf nf r htail
     have hS : h1.pSpans = S1 ∧ h1.nSpans = S2 := by subst hh1; exact ⟨rfl, rfl⟩
     rw [hS.1, hS.2] at rch
     have := CInv.step c _ inv t h hns hwf hfl st.lastNotStale hne st.schema hzt hcu pf nf pb nb pp pn S1 S2 hS1 hS2
       pB1 nB1 hp1 hn1 hadj h1 hh1 r.chunk rch
-    exact ⟨rout, this.1, by rw [rh]; exact this.2⟩
+    refine ⟨rout, this.1, by rw [rh]; exact this.2.1, ?_, ?_⟩
+    · rcases this.2.2 with ⟨e, _⟩ | ⟨e, _⟩
+      · rw [e]; exact Or.inl rfl
+      · rw [e]; exact hsrc1
+    · rcases this.2.2 with ⟨_, e⟩ | ⟨_, e⟩
+      · rw [e]; exact Or.inl rfl
+      · rw [e]; exact hsrc2
   by_cases hb : pb = [] ∧ nb = []
   · obtain ⟨rfl, rfl⟩ := hb
     simp only [List.isEmpty_nil, Bool.not_true, Bool.or_self, Bool.false_eq_true, if_false] at hr'
     exact finish h.pSpans h.nSpans h.pB h.nB h (pp.merge_of_b_nil rfl).symm (pn.merge_of_b_nil rfl).symm
-      rfl rfl (hist_eta h) hr'
+      rfl rfl (hist_eta h) hr' (Or.inr (Or.inl rfl)) (Or.inr (Or.inl rfl))
   · have hcond : (!pb.isEmpty || !nb.isEmpty) = true := by
       cases pb <;> cases nb <;> simp_all
     rw [if_pos hcond] at hr'
@@ -302,22 +312,29 @@ theorem appendHist_counter_live (c : Chunk) (l : List (Int × Hist)) (inv : CInv
       simp only [List.isEmpty_nil, Bool.and_self, if_true] at hX
       obtain ⟨pB1, nB1, hp1, hn1, hh1⟩ := recodeHistogram_ok _ pb nb h1 hX
       exact finish c.pSpans c.nSpans pB1 nB1 h1 (pp.merge_of_f_nil rfl).symm (pn.merge_of_f_nil rfl).symm
-        hp1 hn1 hh1 htail
+        hp1 hn1 hh1 htail (Or.inl rfl) (Or.inl rfl)
     · have hcond2 : (pf.isEmpty && nf.isEmpty) = false := by
         cases pf <;> cases nf <;> simp_all
       rw [hcond2] at hX
       simp only [Bool.false_eq_true, if_false] at hX
       obtain ⟨pB1, nB1, hp1, hn1, hh1⟩ := recodeHistogram_ok _ pb nb h1 hX
-      exact finish _ _ pB1 nB1 h1
-        (adjustForInserts_idxs c.pSpans h.pSpans pf pb pp ppi inv.pS hwf.pSorted)
-        (adjustForInserts_idxs c.nSpans h.nSpans nf nb pn pni inv.nS hwf.nSorted) hp1 hn1 hh1 htail
+      have src : ∀ (cS hS : List Span) (ins : List Insert),
+          idxs (adjustForInserts hS ins) = mergeU (idxs cS) (idxs hS) → SpanSrc cS hS (adjustForInserts hS ins) := by
+        intro cS hS ins hi
+        by_cases he : ins = []
+        · subst he; exact Or.inr (Or.inl (by simp [adjustForInserts]))
+        · exact Or.inr (Or.inr ⟨adjustForInserts_lenPos hS ins he, hi⟩)
+      have i1 := adjustForInserts_idxs c.pSpans h.pSpans pf pb pp ppi inv.pS hwf.pSorted
+      have i2 := adjustForInserts_idxs c.nSpans h.nSpans nf nb pn pni inv.nS hwf.nSorted
+      exact finish _ _ pB1 nB1 h1 i1 i2 hp1 hn1 hh1 htail (src _ _ _ i1) (src _ _ _ i2)
 
 /-- **gauge path, live histogram accepted** -/
 theorem appendHist_gauge_live (c : Chunk) (l : List (Int × Hist)) (inv : CInv c l) (hne : c.rev ≠ [])
     (t : Int) (h : Hist) (hns : h.stale = false) (hwf : WF h) (hfl : h.float = c.float) (hg : h.hint = .gauge)
     (g : GDec) (hok : c.appendableGauge h = some g) (r : AppRes)
     (hr : appendHist none c t h = .ok r) :
-    r.out ≠ .newChunk ∧ CInv r.chunk ((t, h) :: l) ∧ r.h.sem = h.sem := by
+    r.out ≠ .newChunk ∧ CInv r.chunk ((t, h) :: l) ∧ r.h.sem = h.sem ∧
+      SpanSrc c.pSpans h.pSpans r.chunk.pSpans ∧ SpanSrc c.nSpans h.nSpans r.chunk.nSpans := by
   obtain ⟨hng, hlast, hsch, hzt0, hcu0, rfl⟩ := appendableGauge_some c h g hns hok
   obtain ⟨pp, hpM⟩ := expandBoth_plan c.pSpans h.pSpans
   obtain ⟨pn, hnM⟩ := expandBoth_plan c.nSpans h.nSpans
@@ -349,25 +366,35 @@ theorem appendHist_gauge_live (c : Chunk) (l : List (Int × Hist)) (inv : CInv c
       idxs S1 = mergeU (idxs c.pSpans) (idxs h.pSpans) → idxs S2 = mergeU (idxs c.nSpans) (idxs h.nSpans) →
       applyIns h.float h.pB (countSpans S1) pb = .ok pB1 → applyIns h.float h.nB (countSpans S2) nb = .ok nB1 →
       h1 = { h with pSpans := S1, nSpans := S2, pB := pB1, nB := nB1 } → appendTail c t pf nf h1 = .ok r →
-      r.out ≠ .newChunk ∧ CInv r.chunk ((t, h) :: th0 :: l0) ∧ r.h.sem = h.sem := by
-    intro S1 S2 pB1 nB1 h1 hS1 hS2 hp1 hn1 hh1 htail
+      SpanSrc c.pSpans h.pSpans S1 → SpanSrc c.nSpans h.nSpans S2 →
+      r.out ≠ .newChunk ∧ CInv r.chunk ((t, h) :: th0 :: l0) ∧ r.h.sem = h.sem ∧
+        SpanSrc c.pSpans h.pSpans r.chunk.pSpans ∧ SpanSrc c.nSpans h.nSpans r.chunk.nSpans := by
+    intro S1 S2 pB1 nB1 h1 hS1 hS2 hp1 hn1 hh1 htail hsrc1 hsrc2
     obtain ⟨rh, rout, rch⟩ := appendTail_ok c t h1 pf nf r htail
     have hS : h1.pSpans = S1 ∧ h1.nSpans = S2 := by subst hh1; exact ⟨rfl, rfl⟩
     rw [hS.1, hS.2] at rch
     have := CInv.step c _ inv t h hns hwf hfl hlast hne hsch hzt hcu pf nf pb nb pp pn S1 S2 hS1 hS2
       pB1 nB1 hp1 hn1 hadj h1 hh1 r.chunk rch
-    exact ⟨rout, this.1, by rw [rh]; exact this.2⟩
+    refine ⟨rout, this.1, by rw [rh]; exact this.2.1, ?_, ?_⟩
+    · rcases this.2.2 with ⟨e, _⟩ | ⟨e, _⟩
+      · rw [e]; exact Or.inl rfl
+      · rw [e]; exact hsrc1
+    · rcases this.2.2 with ⟨_, e⟩ | ⟨_, e⟩
+      · rw [e]; exact Or.inl rfl
+      · rw [e]; exact hsrc2
   by_cases hb : pb = [] ∧ nb = []
   · obtain ⟨rfl, rfl⟩ := hb
     simp only [List.length_nil, Nat.add_zero, Nat.lt_irrefl, gt_iff_lt, if_false] at hr'
     exact finish h.pSpans h.nSpans h.pB h.nB h (pp.merge_of_b_nil rfl).symm (pn.merge_of_b_nil rfl).symm
-      rfl rfl (hist_eta h) hr'
+      rfl rfl (hist_eta h) hr' (Or.inr (Or.inl rfl)) (Or.inr (Or.inl rfl))
   · have hcond : pb.length + nb.length > 0 := by
       cases pb <;> cases nb <;> simp_all <;> omega
     rw [if_pos hcond] at hr'
     obtain ⟨h1, hX, htail⟩ := bind_ok _ _ _ hr'
     obtain ⟨pB1, nB1, hp1, hn1, hh1⟩ := recodeHistogram_ok _ pb nb h1 hX
     exact finish pM nM pB1 nB1 h1 hpM hnM hp1 hn1 hh1 htail
+      (Or.inr (Or.inr ⟨by rw [← hpMM]; exact expandBoth_lenPos _ _, hpM⟩))
+      (Or.inr (Or.inr ⟨by rw [← hnMM]; exact expandBoth_lenPos _ _, hnM⟩))
 
 /-- a staleness marker accepted into a non-empty chunk -/
 theorem CInv.step_stale (c : Chunk) (l : List (Int × Hist)) (inv : CInv c l) (hne : c.rev ≠ []) (t : Int) (h : Hist)
@@ -416,25 +443,51 @@ theorem appendHist_empty (prev : Option Chunk) (c : Chunk) (he : c.rev = []) (t 
       · cases hr; exact ⟨rfl, _, rfl⟩
       · cases hr; exact ⟨rfl, _, rfl⟩
 
+/-- layout of a chunk that was just started by `h`: the histogram's spans, or none for a staleness marker -/
+def FreshSpans (h : Hist) (c : Chunk) : Prop :=
+  (c.pSpans = h.pSpans ∧ c.nSpans = h.nSpans) ∨ (c.pSpans = [] ∧ c.nSpans = [])
+
+theorem freshSpans_appendRaw (c0 : Chunk) (he : c0.rev = []) (t : Int) (h : Hist) :
+    ∀ {hdr : Hdr}, FreshSpans h { c0.appendRaw t h with hdr := hdr } := by
+  intro hdr
+  cases hs : h.stale with
+  | true => rw [appendRaw_nil_stale c0 he t h hs]; exact Or.inr ⟨rfl, rfl⟩
+  | false => rw [appendRaw_nil c0 he t h hs]; exact Or.inl ⟨rfl, rfl⟩
+
+theorem appendRaw_spans_cons (c : Chunk) (hne : c.rev ≠ []) (t : Int) (h : Hist) :
+    (c.appendRaw t h).pSpans = c.pSpans ∧ (c.appendRaw t h).nSpans = c.nSpans := by
+  cases hs : h.stale with
+  | true => rw [appendRaw_cons_stale c hne t h hs]; exact ⟨rfl, rfl⟩
+  | false => rw [appendRaw_cons c hne t h hs]; exact ⟨rfl, rfl⟩
+
 /-- **One `AppendHistogram`/`AppendFloatHistogram` call** on a chunk satisfying the invariant: either the sample
     went into the chunk (possibly recoding it and/or the histogram) and the invariant holds for the extended
     list, or a fresh chunk holding exactly this sample was started.  In both cases the caller's histogram
     means what it meant. -/
-theorem appendHist_step (prev : Option Chunk) (c : Chunk) (l : List (Int × Hist)) (inv : CInv c l)
+theorem appendHist_step' (prev : Option Chunk) (c : Chunk) (l : List (Int × Hist)) (inv : CInv c l)
     (t : Int) (h : Hist) (hwf : WFs h) (hfl : h.float = c.float) (r : AppRes)
     (hr : appendHist prev c t h = .ok r) (hprev : c.rev ≠ [] → prev = none) :
     (h.stale = true → r.h = h) ∧ (h.stale = false → r.h.sem = h.sem) ∧
     ((r.out ≠ .newChunk ∧ c.rev ≠ [] ∧ CInv r.chunk ((t, h) :: l)) ∨
-     ((r.out = .newChunk ∨ c.rev = []) ∧ r.h = h ∧ CInv r.chunk [(t, h)])) := by
+     ((r.out = .newChunk ∨ c.rev = []) ∧ r.h = h ∧ CInv r.chunk [(t, h)])) ∧
+    ((SpanSrc c.pSpans h.pSpans r.chunk.pSpans ∧ SpanSrc c.nSpans h.nSpans r.chunk.nSpans) ∨ FreshSpans h r.chunk) := by
   by_cases he : c.rev = []
   · obtain ⟨rh, hdr, rc⟩ := appendHist_empty prev c he t h r hr
-    refine ⟨fun _ => rh, fun _ => by rw [rh], Or.inr ⟨Or.inr he, rh, ?_⟩⟩
-    rw [rc]; exact CInv.first c he t h hwf hfl hdr
+    refine ⟨fun _ => rh, fun _ => by rw [rh], Or.inr ⟨Or.inr he, rh, ?_⟩, Or.inr ?_⟩
+    · rw [rc]; exact CInv.first c he t h hwf hfl hdr
+    · rw [rc]; exact freshSpans_appendRaw c he t h
   · have hp := hprev he; subst hp
     have hnum : c.num ≠ 0 := by simpa [Chunk.num] using he
     have newc : ∀ hdr, CInv (({ Chunk.empty h.float with hdr := hdr } : Chunk).appendRaw t h) [(t, h)] := by
       intro hdr
       exact CInv.first { Chunk.empty h.float with hdr := hdr } rfl t h hwf rfl hdr
+    have newf : ∀ hdr, FreshSpans h (({ Chunk.empty h.float with hdr := hdr } : Chunk).appendRaw t h) := by
+      intro hdr
+      exact freshSpans_appendRaw { Chunk.empty h.float with hdr := hdr } rfl t h
+    have stalef : SpanSrc c.pSpans h.pSpans (c.appendRaw t h).pSpans ∧
+        SpanSrc c.nSpans h.nSpans (c.appendRaw t h).nSpans := by
+      have := appendRaw_spans_cons c he t h
+      exact ⟨Or.inl this.1, Or.inl this.2⟩
     by_cases hg : h.hint = .gauge
     · -- gauge path
       cases hok : c.appendableGauge h with
@@ -444,12 +497,12 @@ theorem appendHist_step (prev : Option Chunk) (c : Chunk) (l : List (Int × Hist
         rw [if_neg (fun hx => hx hg)] at hr
         simp only [hok] at hr
         cases hr
-        exact ⟨fun _ => rfl, fun _ => rfl, Or.inr ⟨Or.inl rfl, rfl, newc _⟩⟩
+        exact ⟨fun _ => rfl, fun _ => rfl, Or.inr ⟨Or.inl rfl, rfl, newc _⟩, Or.inr (newf _)⟩
       | some g =>
         cases hs : h.stale with
         | false =>
-          obtain ⟨ro, ri, rs⟩ := appendHist_gauge_live c l inv he t h hs (hwf hs) hfl hg g hok r hr
-          exact ⟨fun h' => by simp at h', fun _ => rs, Or.inl ⟨ro, he, ri⟩⟩
+          obtain ⟨ro, ri, rs, sp⟩ := appendHist_gauge_live c l inv he t h hs (hwf hs) hfl hg g hok r hr
+          exact ⟨fun h' => by simp at h', fun _ => rs, Or.inl ⟨ro, he, ri⟩, Or.inl sp⟩
         | true =>
           have hgs := appendableGauge_stale c h g hs hok
           subst hgs
@@ -459,7 +512,8 @@ theorem appendHist_step (prev : Option Chunk) (c : Chunk) (l : List (Int × Hist
           simp only [hok] at hr
           simp [pure, Except.pure, bind, Except.bind] at hr
           subst hr
-          exact ⟨fun _ => rfl, fun h' => by simp at h', Or.inl ⟨by simp, he, CInv.step_stale c l inv he t h hs hfl⟩⟩
+          exact ⟨fun _ => rfl, fun h' => by simp at h', Or.inl ⟨by simp, he, CInv.step_stale c l inv he t h hs hfl⟩,
+            Or.inl stalef⟩
     · -- counter path
       cases hok : c.appendable h with
       | error e =>
@@ -473,12 +527,12 @@ theorem appendHist_step (prev : Option Chunk) (c : Chunk) (l : List (Int × Hist
           split at hr; · simp at hr
           simp only [hok] at hr
           cases hr
-          exact ⟨fun _ => rfl, fun _ => rfl, Or.inr ⟨Or.inl rfl, rfl, newc _⟩⟩
+          exact ⟨fun _ => rfl, fun _ => rfl, Or.inr ⟨Or.inl rfl, rfl, newc _⟩, Or.inr (newf _)⟩
         | ok pf nf pb nb =>
           cases hs : h.stale with
           | false =>
-            obtain ⟨ro, ri, rs⟩ := appendHist_counter_live c l inv he t h hs (hwf hs) hfl hg pf nf pb nb hok r hr
-            exact ⟨fun h' => by simp at h', fun _ => rs, Or.inl ⟨ro, he, ri⟩⟩
+            obtain ⟨ro, ri, rs, sp⟩ := appendHist_counter_live c l inv he t h hs (hwf hs) hfl hg pf nf pb nb hok r hr
+            exact ⟨fun h' => by simp at h', fun _ => rs, Or.inl ⟨ro, he, ri⟩, Or.inl sp⟩
           | true =>
             rcases appendable_stale c h hs _ hok with ⟨hdr, hd⟩ | hd
             · cases hd
@@ -488,6 +542,16 @@ theorem appendHist_step (prev : Option Chunk) (c : Chunk) (l : List (Int × Hist
               simp only [hok] at hr
               simp [pure, Except.pure, bind, Except.bind] at hr
               subst hr
-              exact ⟨fun _ => rfl, fun h' => by simp at h', Or.inl ⟨by simp, he, CInv.step_stale c l inv he t h hs hfl⟩⟩
+              exact ⟨fun _ => rfl, fun h' => by simp at h', Or.inl ⟨by simp, he, CInv.step_stale c l inv he t h hs hfl⟩,
+            Or.inl stalef⟩
+
+theorem appendHist_step (prev : Option Chunk) (c : Chunk) (l : List (Int × Hist)) (inv : CInv c l)
+    (t : Int) (h : Hist) (hwf : WFs h) (hfl : h.float = c.float) (r : AppRes)
+    (hr : appendHist prev c t h = .ok r) (hprev : c.rev ≠ [] → prev = none) :
+    (h.stale = true → r.h = h) ∧ (h.stale = false → r.h.sem = h.sem) ∧
+    ((r.out ≠ .newChunk ∧ c.rev ≠ [] ∧ CInv r.chunk ((t, h) :: l)) ∨
+     ((r.out = .newChunk ∨ c.rev = []) ∧ r.h = h ∧ CInv r.chunk [(t, h)])) := by
+  obtain ⟨a, b, c', _⟩ := appendHist_step' prev c l inv t h hwf hfl r hr hprev
+  exact ⟨a, b, c'⟩
 
 end Prom.Hist
